@@ -1,11 +1,148 @@
-/- Driver ops for C09. -/
+/- Driver ops for C09 (over-sampling).  Everything is exact `Rat`. -/
 import Driver.Loop
+import Model.OverSample
 
 open Lean Model
 
 namespace Driver.C09
 
-def ops : List (String × Op) := []
+/-- user functions as data: the harness evaluates the same tree with numpy doubles (implementation
+    side) and with Fractions (oracle); here it is evaluated exactly on `Rat`.
+    JSON: ["c","p/q"] | ["y"] | ["x"] | ["add",a,b] | ["sub",a,b] | ["mul",a,b] | ["neg",a] |
+          ["div",a,b] | ["gt0",e,a,b] (a if e > 0 else b) |
+          ["lookup",ey,ex,H,W,[values]] (table[clip(floor ey)][clip(floor ex)]) -/
+inductive Expr where
+  | c (v : Rat)
+  | y
+  | x
+  | add (a b : Expr)
+  | sub (a b : Expr)
+  | mul (a b : Expr)
+  | neg (a : Expr)
+  | div (a b : Expr)
+  | gt0 (e a b : Expr)
+  | lookup (ey ex : Expr) (h w : Nat) (tab : Array Rat)
+
+partial def parseExpr (j : Json) : Except String Expr := do
+  let l ← getArr j
+  match l with
+  | [] => throw "empty expr"
+  | hd :: tl =>
+    let k ← getStr hd
+    match k, tl with
+    | "c", [v] => pure (.c (← getRat v))
+    | "y", [] => pure .y
+    | "x", [] => pure .x
+    | "add", [a, b] => pure (.add (← parseExpr a) (← parseExpr b))
+    | "sub", [a, b] => pure (.sub (← parseExpr a) (← parseExpr b))
+    | "mul", [a, b] => pure (.mul (← parseExpr a) (← parseExpr b))
+    | "neg", [a] => pure (.neg (← parseExpr a))
+    | "div", [a, b] => pure (.div (← parseExpr a) (← parseExpr b))
+    | "gt0", [e, a, b] => pure (.gt0 (← parseExpr e) (← parseExpr a) (← parseExpr b))
+    | "lookup", [ey, ex, h, w, t] =>
+      pure (.lookup (← parseExpr ey) (← parseExpr ex) (← getNat h) (← getNat w)
+        (← getRats t).toArray)
+    | _, _ => throw s!"bad expr {k}"
+
+def clipIdx (q : Rat) (n : Nat) : Nat :=
+  let i := q.floor
+  if i < 0 then 0 else if i.toNat ≥ n then n - 1 else i.toNat
+
+def Expr.eval (p : Rat × Rat) : Expr → Rat
+  | .c v => v
+  | .y => p.1
+  | .x => p.2
+  | .add a b => a.eval p + b.eval p
+  | .sub a b => a.eval p - b.eval p
+  | .mul a b => a.eval p * b.eval p
+  | .neg a => - a.eval p
+  | .div a b => a.eval p / b.eval p
+  | .gt0 e a b => if e.eval p > 0 then a.eval p else b.eval p
+  | .lookup ey ex h w tab => tab.getD (clipIdx (ey.eval p) h * w + clipIdx (ex.eval p) w) 0
+
+def getGeom (j : Json) : Except String (Geom Rat) := do
+  match ← getRats j with
+  | [sy, sx, oy, ox] => pure ⟨sy, sx, oy, ox⟩
+  | _ => throw "bad geom"
+
+def getOptRat (j : Json) : Except String (Option Rat) :=
+  match j with
+  | .null => pure none
+  | _ => do pure (some (← getRat j))
+
+def pointsToJson (l : List (Rat × Rat)) : Json :=
+  listToJson (fun (p : Rat × Rat) => ratsToJson [p.1, p.2]) l
+
+/-- grid and index observables of `OverSamplerUniform(mask, sub_size)` -/
+def uniform : Op := fun j => do
+  let m ← getMask (← field j "mask")
+  let sub ← getNats (← field j "sub")
+  let g ← getGeom (← field j "geom")
+  pure (obj [("grid", pointsToJson (Impl.overSampledGrid m sub g)),
+             ("slim_for_sub_slim", natsToJson (Impl.slimForSubSlim m sub)),
+             ("sub_native", listToJson pairToJson (Impl.subNativeForSubSlim m sub)),
+             ("areas", ratsToJson (Impl.subPixelAreas sub g)),
+             ("unmasked_grid", pointsToJson (Impl.unmaskedGrid m g))])
+
+def binned : Op := fun j => do
+  let m ← getMask (← field j "mask")
+  let sub ← getNats (← field j "sub")
+  let vals ← getRats (← field j "values")
+  pure (ratsToJson (Impl.binned m sub vals))
+
+def viaFunc : Op := fun j => do
+  let m ← getMask (← field j "mask")
+  let sub ← getNats (← field j "sub")
+  let g ← getGeom (← field j "geom")
+  let f ← parseExpr (← field j "f")
+  pure (ratsToJson (Impl.arrayViaFunc (fun p => f.eval p) m sub g))
+
+def getOverSampling (j : Json) : Except String (Impl.OverSampling Rat) := do
+  let kind ← getStr (← field j "kind")
+  match kind with
+  | "int" => pure (.uniform (.int (← getNat (← field j "sub"))))
+  | "arr" => pure (.uniform (.arr (← getNats (← field j "sub"))))
+  | "iterate" =>
+    pure (.iterate (← getOptRat (fieldD j "fr" Json.null)) (← getOptRat (fieldD j "rel" Json.null))
+      (← getNats (← field j "steps")))
+  | _ => throw "bad over_sampling kind"
+
+/-- the `@over_sample` wrapper on a Grid2D with `over_sampling = os`; `grid` = the grid's own values -/
+def decorate : Op := fun j => do
+  let m ← getMask (← field j "mask")
+  let g ← getGeom (← field j "geom")
+  let f ← parseExpr (← field j "f")
+  let os ← getOverSampling (← field j "os")
+  let gv ← getList getRats (← field j "grid")
+  let gv := gv.map fun p => (p.getD 0 0, p.getD 1 0)
+  match os with
+  | .iterate _ _ [] => throw "empty_schedule"
+  | _ => pure (ratsToJson (Impl.decorated (fun p => f.eval p) m g gv os))
+
+def iterate : Op := fun j => do
+  let m ← getMask (← field j "mask")
+  let g ← getGeom (← field j "geom")
+  let f ← parseExpr (← field j "f")
+  let fr ← getOptRat (fieldD j "fr" Json.null)
+  let rel ← getOptRat (fieldD j "rel" Json.null)
+  let steps ← getNats (← field j "steps")
+  if steps.isEmpty then throw "empty_schedule"
+  pure (ratsToJson (Impl.iterateViaFunc (fun p => f.eval p) m g fr rel steps))
+
+/-- iterate on an explicit table: `table[ℓ]` = native values of level ℓ (ℓ = 0 … nSteps) -/
+def iterateTable : Op := fun j => do
+  let m ← getMask (← field j "mask")
+  let fr ← getOptRat (fieldD j "fr" Json.null)
+  let rel ← getOptRat (fieldD j "rel" Json.null)
+  let tab ← getRatMat (← field j "table")
+  if tab.length < 2 then throw "empty_schedule"
+  let v : Nat → Nat → Rat := fun l i => (tab.getD l []).getD i 0
+  let nat := Impl.iterateNative fr rel m.h m.w m.bits (Impl.tableArray (m.h * m.w) v) (tab.length - 1)
+  pure (ratsToJson (Impl.slimFrom m (Impl.applyMask m nat 0) 0))
+
+def ops : List (String × Op) :=
+  [("c09.uniform", uniform), ("c09.binned", binned), ("c09.via_func", viaFunc),
+   ("c09.decorate", decorate), ("c09.iterate", iterate), ("c09.iterate_table", iterateTable)]
 
 end Driver.C09
 
